@@ -1,0 +1,170 @@
+//! Verification hooks (cargo feature `verif`).
+//!
+//! Everything in this file is compiled only with `--features verif`. The hooks
+//! never duplicate VM logic: forced collections go through the real `run_gc`,
+//! and the accessors are read-only views of VM state.
+use crate::vm::environment::GlobalEnvironment;
+use crate::vm::heap::Heap;
+use crate::vm::stack::Stack;
+use crate::vm::vcell::VCell;
+use crate::vm::Vm;
+use std::fmt::{Debug, Formatter};
+
+/// When the `run_count` loop forces a collection.
+#[derive(Clone, Debug, Eq, PartialEq)]
+pub enum GcSchedule {
+    /// Never force a collection (natural 75% trigger only).
+    Never,
+    /// Force a collection before every k-th instruction.
+    EveryK(u64),
+    /// Force a collection before an instruction with probability num/den,
+    /// driven by a deterministic xorshift generator starting at `state`.
+    Random { state: u64, num: u64, den: u64 },
+}
+
+/// Phase reported to the collection observer.
+#[derive(Clone, Copy, Debug, Eq, PartialEq)]
+pub enum GcPhase {
+    /// A collection is about to mark (the 75% test has passed).
+    BeforeMark,
+    /// The sweep has just finished (before the grow decision).
+    AfterSweep,
+}
+
+pub type GcObserver = Box<dyn FnMut(&Vm, GcPhase)>;
+
+pub struct VerifState {
+    pub schedule: GcSchedule,
+    pub observer: Option<GcObserver>,
+    /// Instructions dispatched by `run_count` since the last reset.
+    pub instructions: u64,
+    /// Collections that passed the utilisation test since the last reset.
+    pub collections: u64,
+    /// Highest stack pointer seen at an instruction boundary or in a push.
+    pub sp_high_water: usize,
+}
+
+impl VerifState {
+    pub fn new() -> VerifState {
+        VerifState {
+            schedule: GcSchedule::Never,
+            observer: None,
+            instructions: 0,
+            collections: 0,
+            sp_high_water: 0,
+        }
+    }
+}
+
+impl Default for VerifState {
+    fn default() -> Self {
+        VerifState::new()
+    }
+}
+
+impl Debug for VerifState {
+    fn fmt(&self, f: &mut Formatter<'_>) -> std::fmt::Result {
+        write!(f, "#<verif-state {:?}>", self.schedule)
+    }
+}
+
+impl Vm {
+    pub fn verif_set_gc_schedule(&mut self, schedule: GcSchedule) {
+        self.verif.schedule = schedule;
+    }
+
+    pub fn verif_set_gc_observer(&mut self, observer: Option<GcObserver>) {
+        self.verif.observer = observer;
+    }
+
+    /// Force one collection now, through the real `run_gc`.
+    pub fn verif_force_gc(&mut self) {
+        self.heap.verif_set_pretend_full(true);
+        self.run_gc();
+        self.heap.verif_set_pretend_full(false);
+    }
+
+    /// Called at the top of every `run_count` iteration.
+    pub(crate) fn verif_tick(&mut self) {
+        self.verif.instructions += 1;
+        let sp = self.stack.get_sp().max(self.stack.verif_high_water());
+        if sp > self.verif.sp_high_water {
+            self.verif.sp_high_water = sp;
+        }
+        let force = match &mut self.verif.schedule {
+            GcSchedule::Never => false,
+            GcSchedule::EveryK(k) => *k != 0 && self.verif.instructions % *k == 0,
+            GcSchedule::Random { state, num, den } => {
+                let mut x = *state | 1;
+                x ^= x << 13;
+                x ^= x >> 7;
+                x ^= x << 17;
+                *state = x;
+                *den != 0 && (x % *den) < *num
+            }
+        };
+        if force {
+            self.verif_force_gc();
+        }
+    }
+
+    /// Called by `run_gc` around a collection.
+    pub(crate) fn verif_observe(&mut self, phase: GcPhase) {
+        if phase == GcPhase::BeforeMark {
+            self.verif.collections += 1;
+        }
+        if let Some(mut observer) = self.verif.observer.take() {
+            observer(self, phase);
+            if self.verif.observer.is_none() {
+                self.verif.observer = Some(observer);
+            }
+        }
+    }
+
+    pub fn verif_instructions(&self) -> u64 {
+        self.verif.instructions
+    }
+
+    pub fn verif_collections(&self) -> u64 {
+        self.verif.collections
+    }
+
+    pub fn verif_sp_high_water(&self) -> usize {
+        self.verif.sp_high_water.max(self.stack.verif_high_water())
+    }
+
+    pub fn verif_reset_counters(&mut self) {
+        self.verif.instructions = 0;
+        self.verif.collections = 0;
+        self.verif.sp_high_water = self.stack.get_sp();
+        self.stack.verif_reset_high_water();
+    }
+
+    pub fn verif_heap(&self) -> &Heap {
+        &self.heap
+    }
+
+    pub fn verif_stack(&self) -> &Stack {
+        &self.stack
+    }
+
+    pub fn verif_globenv(&self) -> &GlobalEnvironment {
+        &self.globenv
+    }
+
+    pub fn verif_acc(&self) -> &VCell {
+        &self.acc
+    }
+
+    pub fn verif_ep(&self) -> usize {
+        self.ep
+    }
+
+    pub fn verif_ip(&self) -> (usize, usize) {
+        self.ip
+    }
+
+    pub fn verif_bp(&self) -> usize {
+        self.bp
+    }
+}
